@@ -1,4 +1,4 @@
-import LitexModel.Stream.Open
+import LitexModel.Stream.Open2
 open Litex Litex.Driver Litex.Stream
 
-def main : IO Unit := mainLoop openMachine (fun _ => none)
+def main : IO Unit := mainLoop openMachine2 call2
